@@ -9,7 +9,9 @@ validates a decoded message (vf.osc.Msg) against the entry and returns
 
 problems: list of (mechanism, detail) - empty when the message conforms;
 mentions: list of (kind, role, first, count) for every id the message names
-          (kind node|buf|cbus|abus, role new|use|free).
+          (kind node|buf|cbus|abus, role new|use|free|usesym; usesym = the
+          id is written as a bus mapping symbol 'c<n>' / 'a<n>' in a control
+          value slot - ids in string form are ids too).
 
 Slot types
     i     int32
@@ -183,7 +185,7 @@ def _val_ok(v, mentions, depth=0):
         return True
     if isinstance(v, str):
         if len(v) > 1 and v[0] in 'ca' and v[1:].isdigit():
-            mentions.append(('cbus' if v[0] == 'c' else 'abus', 'use',
+            mentions.append(('cbus' if v[0] == 'c' else 'abus', 'usesym',
                              int(v[1:]), 1))
         return True
     if isinstance(v, list):
@@ -219,6 +221,8 @@ def _slot(slot, cur, problems, mentions, cmd, pos):
             v = cur.take()
             if role == 'val1':
                 ok = _is_num(v) or isinstance(v, str)
+                if isinstance(v, str):
+                    _val_ok(v, mentions)      # 'c<n>' / 'a<n>' names a bus
             else:
                 ok = _is_num(v)
             if not ok:
@@ -426,7 +430,11 @@ def selftest():
         return p
 
     assert ok('/s_new', 'default', 1000, 0, 1, 'freq', 440.0, 3, [1, 2.0, 'c3']) == [
-        ('node', 'new', 1000, 1), ('node', 'use', 1, 1), ('cbus', 'use', 3, 1)]
+        ('node', 'new', 1000, 1), ('node', 'use', 1, 1), ('cbus', 'usesym', 3, 1)]
+    assert ok('/n_set', 1000, 'in', 'a12', 'freq', ['c0', 'x1']) == [
+        ('node', 'use', 1000, 1), ('abus', 'usesym', 12, 1), ('cbus', 'usesym', 0, 1)]
+    assert ok('/n_setn', 1000, 'freq', 2, 'c7', 1.0) == [
+        ('node', 'use', 1000, 1), ('cbus', 'usesym', 7, 1)]
     ok('/s_new', 'default', -1, 4, 1)
     bad('/s_new', 'default', 1000, 5, 1)
     bad('/s_new', 'default', 1000, 0, 1, 'freq')
